@@ -266,6 +266,7 @@ func c05Reentrant(x *X) {
 }
 
 func runC05(x *X) {
+	runC05Items(x)
 	c05AfterFailure(x)
 	c05Reentrant(x)
 	ldepth := x.Pick(4, 5)
